@@ -405,11 +405,11 @@ func vfC20ServerCase(t *testing.T, k *vfKit, caseID string, r *rand.Rand) {
 			key = "realm:diverted-under-refused-metadata"
 			what = "is a punch packet under the metadata of a Respond call that was REFUSED as a duplicate (never a registered attempt) and did not reach the reader"
 		}
-		vfC20V(k, key, map[string]any{"case_id": caseID, "plans": plans, "packet": vfC20PktBrief(p)}, "packet #%d (%s) %s", p.Seq, p.Kind, what)
+		vfC20V(k, key, map[string]any{"case_id": caseID, "plans": plans, "duplicate": rep["duplicate"], "packet": vfC20PktBrief(p)}, "packet #%d (%s) %s", p.Seq, p.Kind, what)
 		break
 	}
 	if gi == len(expectPass) && len(gots) > gi {
-		vfC20V(k, "realm:registered-punch-not-diverted", map[string]any{"case_id": caseID, "plans": plans, "returned_hex": vfHex(gots[gi].data)},
+		vfC20V(k, "realm:registered-punch-not-diverted", map[string]any{"case_id": caseID, "plans": plans, "duplicate": rep["duplicate"], "returned_hex": vfHex(gots[gi].data)},
 			"the reader received %d packets, only %d were expected to pass (a peer's punch packet of a running attempt reached the reader)", len(gots), len(expectPass))
 	}
 	gmu.Unlock()
